@@ -239,7 +239,7 @@ CLAIM = {
     "text": "Sibling-agreement rule over HIR match tables: the hash join, nested-loop join and logical join must partition the seven JoinType "
             "variants identically at sites with the same role (output columns; left-match tracking/drain). Agreement of sibling "
             "implementations is decidable from code shape for all inputs; which pairs a join produces is not. Plus a pairing rule for the "
-            "per-batch right-match flags (cleared before reuse in the hash join, reset after the flush in the nested-loop join). Plus a NULL-key rule: hash-join code outside the row matcher may look at an input array's validity only behind a test of the condition's ComparisonOperator (NULL is an ordinary operand of IS [NOT] DISTINCT FROM).",
+            "per-batch right-match flags (cleared before reuse in the hash join, reset after the flush in the nested-loop join). Plus a NULL-key rule: hash-join code outside the row matcher may look at an input array's validity only behind a test of the condition's ComparisonOperator (NULL is an ordinary operand of IS [NOT] DISTINCT FROM). Plus: a position recorded in the hash table's equality-key list is the running count of all join keys, not of the equalities.",
     "note": "trusted: rustc HIR + typeck resolution of patterns; the role table in rules/c06.py (sites confirmed by reading)",
     "technique": "static analysis: sibling agreement over HIR match tables (rustc_private driver)",
 }
